@@ -426,6 +426,25 @@ func (f *Frame) mergeHeaps(pcs []Term, heaps []*Heap) *Heap {
 			res = res.Set(name, f.vc.Define("h."+name, t))
 		}
 	}
+	// components nobody has mentioned yet: if the paths would resolve them differently
+	// (different havoc epochs), the merged heap must keep asking the paths
+	differ := false
+	for _, hp := range heaps {
+		if hp.epochBase != h.epochBase || len(hp.parts) > 0 {
+			differ = true
+		}
+	}
+	if differ {
+		if res == h {
+			res = &Heap{comps: map[string]Term{}, vc: h.vc}
+			for k, v := range h.comps {
+				res.comps[k] = v
+			}
+		}
+		res.epochBase = ""
+		res.parts = append([]*Heap{}, heaps...)
+		res.partPCs = append([]Term{}, pcs...)
+	}
 	return res
 }
 
